@@ -7,7 +7,7 @@ PROP = dict(
             dict(name="amm-sequences", go_test="TestC06Seq", runner="C06",
                  env=dict(quick=dict(VERIF_CASES=170), thorough=dict(VERIF_CASES=5000))),
             dict(name="amm-ranged", go_test="TestC06Ranged", runner="C06",
-                 env=dict(quick=dict(VERIF_CASES=45), thorough=dict(VERIF_CASES=1500))),
+                 env=dict(quick=dict(VERIF_CASES=45, VERIF_C06_NEIGH=1), thorough=dict(VERIF_CASES=1500, VERIF_C06_NEIGH=4))),
             dict(name="liquidity-keeper", go_test="TestC06Keeper", runner="C06-keeper",
                  env=dict(quick=dict(VERIF_CASES=14), thorough=dict(VERIF_CASES=500))),
         ],
